@@ -996,9 +996,9 @@ func mutateTree(r *hx.Rng, t interface{}, fs *fileSet) interface{} {
 	walk = func(v interface{}) {
 		switch x := v.(type) {
 		case map[string]interface{}:
-			for k, c := range x {
+			for _, k := range keysSorted(x) {
 				slots = append(slots, slot{x, k, -1})
-				walk(c)
+				walk(x[k])
 			}
 		case []interface{}:
 			for i, c := range x {
@@ -1011,7 +1011,7 @@ func mutateTree(r *hx.Rng, t interface{}, fs *fileSet) interface{} {
 	if len(slots) == 0 {
 		return t
 	}
-	sort.Slice(slots, func(i, j int) bool {
+	sort.SliceStable(slots, func(i, j int) bool {
 		return fmt.Sprint(slots[i].key, slots[i].idx) < fmt.Sprint(slots[j].key, slots[j].idx)
 	})
 	s := hx.Pick(r, slots)
